@@ -1,4 +1,5 @@
 import Pearl.Proofs.FaultLemmas
+import Pearl.Proofs.ScanRegions
 import Pearl.Props.C06
 /-
 C11 "I/O fault containment": ONE blob, arbitrary sequences of write steps whose positional writes succeed,
@@ -573,6 +574,282 @@ theorem torn_header_zero_padded_accepted :
   rw [h2] at this
   cases this
 
+/-! ## start-up after ANY sequence of steps: the file and the scan, region by region
+
+`fileBody maxSP off steps` (Pearl/Proofs/ScanRegions.lean) is the file content from `off` on: every step owns
+the `recLen r` bytes it reserved; its region holds the first `cut` bytes of the record image and is
+zero-filled to its end iff a later step wrote something; the file ends after the last byte written.
+`scanRegions klen maxSP v off steps` is what the scan loop returns on it; `NoAccident klen maxSP off steps`
+says that the FIRST step that left less than a header — the only one that matters, the scan never gets past
+it — is not a zero-padding accident (`torn_header_zero_padded_accepted`). -/
+
+/-- `paddedHeader` above is the `paddedHdr` of the lemma file -/
+theorem paddedHeader_eq (klen : Nat) (R : Record) (off c : Nat) :
+    paddedHeader klen R off c = paddedHdr klen R off c := rfl
+
+/-- the reservation counter after a run -/
+theorem size_after (maxSP : Nat) (steps : List (Record × Outcome)) :
+    (run maxSP fresh steps).file.size = 20 + regionsLen steps := run_size maxSP fresh steps
+
+/-- (R1) THE FILE after any sequence of steps: the blob header, then the regions -/
+theorem fileAfter_regions (maxSP : Nat) (steps : List (Record × Outcome)) :
+    fileAfter maxSP steps = serBlobHeader ++ fileBody maxSP 20 steps :=
+  fresh_run_fileBody maxSP steps
+
+/-- (R2) THE SCAN, for every sequence of steps, with and without data validation: start-up opens the
+    blob with the headers `scanRegions` lists or quarantines it where `scanRegions` stops; and the scan loop
+    itself returns exactly `scanRegions` (any sufficient loop bound) -/
+theorem startup_scan_regions (klen maxSP : Nat) (v : Bool) (steps : List (Record × Outcome))
+    (hg : GoodRecs klen (steps.map (·.1))) (hna : NoAccident klen maxSP 20 steps)
+    (hsz : (run maxSP fresh steps).file.size < 2 ^ 64) :
+    openBlob klen v (fileAfter maxSP steps) =
+      (match scanRegions klen maxSP v 20 steps with
+       | .error _ => .quarantine
+       | .ok l => .ok (l.map (·.2))) ∧
+    ∀ fuel, (fileAfter maxSP steps).length ≤ 20 + 57 * fuel →
+      rawLoop v (fileAfter maxSP steps) (57 + klen) fuel 20 = scanRegions klen maxSP v 20 steps := by
+  rw [size_after] at hsz
+  rw [fileAfter_regions]
+  exact ⟨openBlob_regions klen maxSP v steps hg hna hsz,
+    fun fuel hf => rawLoop_regions klen maxSP v steps 20 serBlobHeader fuel (serBlobHeader_length _) hg hna
+      hsz hf⟩
+
+/-- (R3) for EVERY file: if start-up with data validation opens the blob, start-up without data
+    validation opens it with the same headers (validation can only turn "opened" into "quarantined") -/
+theorem startup_validating_implies_plain (klen : Nat) (file : List UInt8) (hs : List RecHeader)
+    (h : openBlob klen true file = .ok hs) : openBlob klen false file = .ok hs :=
+  openBlob_true_false klen file hs h
+
+/-- every sequence of steps has one of two shapes: steps that all left a complete header followed by
+    steps that left nothing; or such steps, then a step that left less than a header with something in the
+    file at or after it -/
+theorem restart_cases (klen maxSP : Nat) (steps : List (Record × Outcome)) :
+    (∃ good silent, steps = good ++ silent ∧ (∀ s ∈ good, 57 + klen ≤ cut maxSP s.1 s.2) ∧
+      ∀ s ∈ silent, cut maxSP s.1 s.2 = 0) ∨
+    (∃ good R o later, steps = good ++ (R, o) :: later ∧ (∀ s ∈ good, 57 + klen ≤ cut maxSP s.1 s.2) ∧
+      cut maxSP R o < 57 + klen ∧ (cut maxSP R o ≠ 0 ∨ ∃ s ∈ later, cut maxSP s.1 s.2 ≠ 0)) := by
+  induction steps with
+  | nil => exact Or.inl ⟨[], [], rfl, by simp, by simp⟩
+  | cons x rest ih =>
+    obtain ⟨r, o⟩ := x
+    by_cases hc : 57 + klen ≤ cut maxSP r o
+    · rcases ih with ⟨g, s, rfl, hg, hs⟩ | ⟨g, R, o', l, rfl, hg, h1, h2⟩
+      · refine Or.inl ⟨(r, o) :: g, s, rfl, ?_, hs⟩
+        intro y hy
+        rcases List.mem_cons.mp hy with rfl | hy
+        · exact hc
+        · exact hg y hy
+      · refine Or.inr ⟨(r, o) :: g, R, o', l, rfl, ?_, h1, h2⟩
+        intro y hy
+        rcases List.mem_cons.mp hy with rfl | hy
+        · exact hc
+        · exact hg y hy
+    · by_cases hsil : cut maxSP r o = 0 ∧ ∀ s ∈ rest, cut maxSP s.1 s.2 = 0
+      · refine Or.inl ⟨[], (r, o) :: rest, rfl, by simp, ?_⟩
+        intro y hy
+        rcases List.mem_cons.mp hy with rfl | hy
+        · exact hsil.1
+        · exact hsil.2 y hy
+      · refine Or.inr ⟨[], r, o, rest, rfl, by simp, by omega, ?_⟩
+        by_cases h0 : cut maxSP r o = 0
+        · right
+          apply Classical.byContradiction
+          intro hne
+          apply hsil
+          refine ⟨h0, fun s hs => ?_⟩
+          apply Classical.byContradiction
+          intro hc'
+          exact hne ⟨s, hs, hc'⟩
+        · exact Or.inl h0
+
+/-- (R4) first shape — every step of `good` left a complete header (successful writes, `short n` with
+    `n ≥` header size, `failSecond` on two-buffer records), the steps after them left nothing.
+    Start-up WITHOUT data validation opens the blob exactly as if every step of `good` had been a
+    successful write: acknowledged and FAILED ones alike (E8, now with any number of failed steps and with
+    later writes). With data validation it opens it the same way or quarantines it. The acknowledged headers
+    are among the headers served. -/
+theorem restart_opens_with_all_complete_headers (klen maxSP : Nat) (good silent : List (Record × Outcome))
+    (hgood : ∀ s ∈ good, 57 + klen ≤ cut maxSP s.1 s.2) (hsil : ∀ s ∈ silent, cut maxSP s.1 s.2 = 0)
+    (hg : GoodRecs klen ((good ++ silent).map (·.1)))
+    (hsz : (run maxSP fresh (good ++ silent)).file.size < 2 ^ 64) :
+    openBlob klen false (fileAfter maxSP (good ++ silent)) =
+      .ok (writtenHeaders serBlobHeader (good.map (·.1))) ∧
+    (∀ hs, openBlob klen true (fileAfter maxSP (good ++ silent)) = .ok hs →
+      hs = writtenHeaders serBlobHeader (good.map (·.1))) ∧
+    (ackedHeaders maxSP fresh (good ++ silent)).Sublist (writtenHeaders serBlobHeader (good.map (·.1))) := by
+  have hna : NoAccident klen maxSP 20 (good ++ silent) :=
+    (noAccident_good_append klen maxSP good silent hgood 20).mpr (noAccident_silent klen maxSP _ silent hsil)
+  have hopen := (startup_scan_regions klen maxSP false (good ++ silent) hg hna hsz).1
+  rw [scanRegions_good_append klen maxSP good silent hgood 20,
+    scanRegions_silent klen maxSP false _ silent hsil] at hopen
+  simp only [List.append_nil] at hopen
+  rw [← serBlobHeader_length BlobHeader.new, ← writtenHeaders_eq] at hopen
+  refine ⟨hopen, ?_, ?_⟩
+  · intro hs h
+    have := startup_validating_implies_plain klen _ hs h
+    rw [hopen] at this
+    cases this; rfl
+  · have hsub := ackedHeaders_sublist maxSP fresh good
+    have hack : ackedHeaders maxSP fresh (good ++ silent) = ackedHeaders maxSP fresh good := by
+      unfold ackedHeaders
+      rw [acked_append, acked_silent maxSP _ silent hsil, List.append_nil]
+    rw [hack, writtenHeaders_eq, serBlobHeader_length]
+    exact hsub
+
+/-- (R4, with data validation) if moreover every step of `good` left its COMPLETE record or a record without
+    data (only meta bytes missing, which no scan reads), start-up with data validation opens the blob with
+    the same headers. (For a step that left part of a record WITH data, the validating scan reads the
+    zero-filled / truncated data: `scanRegions` with `dataStop` says exactly what happens.) -/
+theorem restart_opens_with_all_complete_headers_validating (klen maxSP : Nat) (v : Bool)
+    (good silent : List (Record × Outcome))
+    (hgood : ∀ s ∈ good, 57 + klen ≤ cut maxSP s.1 s.2)
+    (hdata : ∀ s ∈ good, recLen s.1 ≤ cut maxSP s.1 s.2 ∨ s.1.data = [])
+    (hsil : ∀ s ∈ silent, cut maxSP s.1 s.2 = 0)
+    (hg : GoodRecs klen ((good ++ silent).map (·.1)))
+    (hsz : (run maxSP fresh (good ++ silent)).file.size < 2 ^ 64) :
+    openBlob klen v (fileAfter maxSP (good ++ silent)) =
+      .ok (writtenHeaders serBlobHeader (good.map (·.1))) := by
+  have hna : NoAccident klen maxSP 20 (good ++ silent) :=
+    (noAccident_good_append klen maxSP good silent hgood 20).mpr (noAccident_silent klen maxSP _ silent hsil)
+  have hopen := (startup_scan_regions klen maxSP v (good ++ silent) hg hna hsz).1
+  rw [scanRegions_good_append_v klen maxSP v good silent hgood (fun _ => hdata) 20,
+    scanRegions_silent klen maxSP v _ silent hsil] at hopen
+  simp only [List.append_nil] at hopen
+  rw [← serBlobHeader_length BlobHeader.new, ← writtenHeaders_eq] at hopen
+  exact hopen
+
+/-- (R5) second shape — after steps that all left a complete header, a step left LESS than a header
+    (`failBefore`, `short n` with `n` below the header size, `failSecond` on a one-buffer record) and
+    something is in the file at or after it. Start-up quarantines the blob, with or without data
+    validation — provided that step is not a zero-padding accident. The failing step need not be the first. -/
+theorem restart_quarantines_at_short_region (klen maxSP : Nat) (v : Bool)
+    (good later : List (Record × Outcome)) (R : Record) (o : Outcome)
+    (hgood : ∀ s ∈ good, 57 + klen ≤ cut maxSP s.1 s.2) (hc : cut maxSP R o < 57 + klen)
+    (hw : cut maxSP R o ≠ 0 ∨ ∃ s ∈ later, cut maxSP s.1 s.2 ≠ 0)
+    (hpad : 0 < cut maxSP R o → (∃ s ∈ later, cut maxSP s.1 s.2 ≠ 0) →
+      PadBad klen R (20 + regionsLen good) (cut maxSP R o))
+    (hg : GoodRecs klen ((good ++ (R, o) :: later).map (·.1)))
+    (hsz : (run maxSP fresh (good ++ (R, o) :: later)).file.size < 2 ^ 64) :
+    openBlob klen v (fileAfter maxSP (good ++ (R, o) :: later)) = .quarantine := by
+  have hna : NoAccident klen maxSP 20 (good ++ (R, o) :: later) := by
+    rw [noAccident_good_append klen maxSP good _ hgood 20]
+    simp only [NoAccident]
+    rw [if_pos hc]
+    intro h0 hne
+    apply hpad h0
+    apply Classical.byContradiction
+    intro hno
+    apply hne
+    rw [fileBody_eq_nil_iff]
+    intro s hs
+    apply Classical.byContradiction
+    intro hc'
+    exact hno ⟨s, hs, hc'⟩
+  rw [(startup_scan_regions klen maxSP v _ hg hna hsz).1]
+  obtain ⟨e, he⟩ := scanRegions_stop klen maxSP v (20 + regionsLen good) R o later hc hw
+  rcases scanRegions_good_append_any klen maxSP v good ((R, o) :: later) hgood 20 with ⟨e', he'⟩ | heq
+  · rw [he']
+  · rw [heq, he]
+
+/-- (R6 = item 1) A step — not necessarily the first failing one — that left less than a header is NEVER
+    in the index a restart builds, with or without data validation, whatever the steps before and after
+    it did; the only hypothesis about accidents concerns the first step that left less than a header. -/
+theorem failed_not_served_later_general (klen maxSP : Nat) (a b : List (Record × Outcome)) (R : Record)
+    (o : Outcome) (hc : cut maxSP R o < 57 + klen)
+    (hg : GoodRecs klen ((a ++ (R, o) :: b).map (·.1)))
+    (hna : NoAccident klen maxSP 20 (a ++ (R, o) :: b))
+    (hsz : (run maxSP fresh (a ++ (R, o) :: b)).file.size < 2 ^ 64) :
+    ∀ v hs, openBlob klen v (fileAfter maxSP (a ++ (R, o) :: b)) = .ok hs →
+      writtenHeader R (run maxSP fresh a).file.size maxSP ∉ hs := by
+  intro v hs hopen hmem
+  rw [(startup_scan_regions klen maxSP v _ hg hna hsz).1] at hopen
+  cases hsr : scanRegions klen maxSP v 20 (a ++ (R, o) :: b) with
+  | error e => rw [hsr] at hopen; cases hopen
+  | ok l =>
+    rw [hsr] at hopen
+    cases hopen
+    obtain ⟨x, hx, hxe⟩ := List.mem_map.mp hmem
+    have hlt := scanRegions_offsets_lt klen maxSP v a b R o hc 20 l hsr x hx
+    rw [hxe, writtenHeader_eq, size_after] at hlt
+    exact Nat.lt_irrefl _ hlt
+
+/-- the same with the hypothesis in the form "no zero-padding accident at any failed step of
+    `a ++ [(R, o)]`" (nothing is assumed about the steps after `(R, o)`) -/
+theorem failed_not_served_later_general' (klen maxSP : Nat) (a b : List (Record × Outcome)) (R : Record)
+    (o : Outcome) (hc : cut maxSP R o < 57 + klen)
+    (hg : GoodRecs klen ((a ++ (R, o) :: b).map (·.1)))
+    (hna : NoPadAccidentAll klen maxSP 20 (a ++ [(R, o)]))
+    (hsz : (run maxSP fresh (a ++ (R, o) :: b)).file.size < 2 ^ 64) :
+    ∀ v hs, openBlob klen v (fileAfter maxSP (a ++ (R, o) :: b)) = .ok hs →
+      writtenHeader R (run maxSP fresh a).file.size maxSP ∉ hs :=
+  failed_not_served_later_general klen maxSP a b R o hc hg
+    (noAccident_of_all_prefix klen maxSP a b R o hc 20 hna) hsz
+
+/-- (R7 = item 2) `failed_write_indexed_after_restart` when later steps DO write: after acknowledged
+    writes, a failed write that left its complete header is accepted by the scan without data validation,
+    which continues at the next region; the blob is opened iff the scan of the later regions succeeds, and
+    then the FAILED write's header is in the index, between the acknowledged headers before it and
+    whatever the later regions contribute -/
+theorem failed_write_indexed_after_restart_later (klen maxSP : Nat)
+    (oks later : List (Record × Outcome)) (R : Record) (o : Outcome) (hok : allOk oks)
+    (hc1 : 57 + klen ≤ cut maxSP R o)
+    (hg : GoodRecs klen ((oks ++ (R, o) :: later).map (·.1)))
+    (hna : NoAccident klen maxSP (20 + (tailOf 20 (oks.map (·.1))).length + recLen R) later)
+    (hsz : (run maxSP fresh (oks ++ (R, o) :: later)).file.size < 2 ^ 64) :
+    openBlob klen false (fileAfter maxSP (oks ++ (R, o) :: later)) =
+      match scanRegions klen maxSP false (20 + (tailOf 20 (oks.map (·.1))).length + recLen R) later with
+      | .error _ => .quarantine
+      | .ok l => .ok (ackedHeaders maxSP fresh oks ++
+          [writtenHeader R (20 + (tailOf 20 (oks.map (·.1))).length) maxSP] ++ l.map (·.2)) := by
+  have hgood : ∀ s ∈ oks ++ [(R, o)], 57 + klen ≤ cut maxSP s.1 s.2 := by
+    intro s hs
+    rcases List.mem_append.mp hs with hs | hs
+    · have hwf := (hg s.1 (List.mem_map_of_mem (List.mem_append_left _ hs))).1
+      have ho : s.2 = .ok := hok s hs
+      rw [ho]
+      exact ok_cut_ge maxSP s.1 hwf
+    · rw [List.mem_singleton] at hs; subst hs; exact hc1
+  have hsplit : oks ++ (R, o) :: later = (oks ++ [(R, o)]) ++ later := by simp
+  have hrl : regionsLen (oks ++ [(R, o)]) = (tailOf 20 (oks.map (·.1))).length + recLen R := by
+    rw [regionsLen_append, tailOf_length_regionsLen]; simp [regionsLen]
+  have hna' : NoAccident klen maxSP 20 (oks ++ (R, o) :: later) := by
+    rw [hsplit, noAccident_good_append klen maxSP _ later hgood 20, hrl, ← Nat.add_assoc]
+    exact hna
+  rw [(startup_scan_regions klen maxSP false _ hg hna' hsz).1]
+  conv => lhs; rw [hsplit, scanRegions_good_append klen maxSP _ later hgood 20, hrl, ← Nat.add_assoc]
+  cases scanRegions klen maxSP false (20 + (tailOf 20 (oks.map (·.1))).length + recLen R) later with
+  | error e => rfl
+  | ok l =>
+    simp only [List.map_append, List.map_cons, List.map_nil]
+    rw [← serBlobHeader_length BlobHeader.new, ← writtenHeaders_eq, serBlobHeader_length,
+      writtenHeaders_snoc, ackedHeaders_allOk maxSP oks hok, writtenHeader_eq]
+
+/-- the general E8 statement: in a run in which every step left at least a complete header (for instance:
+    every other write succeeded), followed possibly by steps that left nothing, EVERY failed step is in the
+    index a restart without data validation builds — although its write returned an error and it is not in
+    the index of the running process -/
+theorem failed_write_indexed_after_restart_general (klen maxSP : Nat)
+    (a b silent : List (Record × Outcome)) (R : Record) (o : Outcome) (ho : o ≠ .ok)
+    (hgood : ∀ s ∈ a ++ (R, o) :: b, 57 + klen ≤ cut maxSP s.1 s.2)
+    (hsil : ∀ s ∈ silent, cut maxSP s.1 s.2 = 0)
+    (hg : GoodRecs klen (((a ++ (R, o) :: b) ++ silent).map (·.1)))
+    (hsz : (run maxSP fresh ((a ++ (R, o) :: b) ++ silent)).file.size < 2 ^ 64) :
+    (writeStep maxSP (run maxSP fresh a) R o).2 = false ∧
+    (∀ e ∈ (run maxSP fresh ((a ++ (R, o) :: b) ++ silent)).index, e.2 ≠ (run maxSP fresh a).file.size) ∧
+    ∃ hs, openBlob klen false (fileAfter maxSP ((a ++ (R, o) :: b) ++ silent)) = .ok hs ∧
+      writtenHeader R (run maxSP fresh a).file.size maxSP ∈ hs := by
+  refine ⟨not_ok_fails maxSP _ R o ho, ?_, ?_⟩
+  · intro e he heq
+    rw [List.append_assoc, List.cons_append] at he
+    have := failed_step_never_indexed maxSP fresh a (b ++ silent) R o ho e he heq
+    simp [fresh] at this
+  · obtain ⟨hopen, _, _⟩ := restart_opens_with_all_complete_headers klen maxSP _ silent hgood hsil hg hsz
+    refine ⟨_, hopen, ?_⟩
+    rw [writtenHeaders_eq, serBlobHeader_length, List.map_append, scanOf_append, List.map_append,
+      writtenHeader_eq, size_after, tailOf_length_regionsLen]
+    apply List.mem_append_right
+    simp only [List.map_cons, scanOf, List.mem_cons, true_or]
+
 /-! ## `dump_failure_keeps_index` -/
 
 /-- a dump that returns an error leaves the blob state exactly as it was: the in-memory index still
@@ -727,6 +1004,74 @@ example : openBlob 3 false (fileAfter 4096 [(wA, .ok), (wB, .short 30)]) = .quar
 -- (d) cut inside the header, a later write: quarantine here, because the padded header does not validate
 example : openBlob 3 false (fileAfter 4096 [(wA, .ok), (wB, .short 30), (wA, .ok)]) = .quarantine := by decide
 
+/-! ### non-vacuity of the region theorems -/
+
+theorem goodW (steps : List (Record × Outcome)) (h : ∀ s ∈ steps, s.1 = wA ∨ s.1 = wB ∨ s.1 = wZ) :
+    GoodRecs 3 (steps.map (·.1)) := by
+  intro R hR
+  obtain ⟨s, hs, rfl⟩ := List.mem_map.mp hR
+  rcases h s hs with h | h | h <;> rw [h] <;> exact ⟨Record.create_WF .., by decide⟩
+
+/-- an acknowledged write; a FAILED write that left its header and 2 more of its 73 bytes; a successful
+    write AFTER it (which zero-fills the rest of the failed write's region); a write that failed before
+    anything was written -/
+def regionSteps : List (Record × Outcome) := [(wA, .ok), (wB, .short 62), (wA, .ok), (wZ, .failBefore)]
+
+-- (R1) the file, region by region
+example : fileBody 4096 20 regionSteps =
+    wA.image 20 ++ ((wB.image 92).take 62 ++ List.replicate 11 0) ++ wA.image 165 := by decide
+-- the hypotheses of (R2) hold for it
+example : NoAccident 3 4096 20 regionSteps ∧ (run 4096 fresh regionSteps).file.size < 2 ^ 64 := by decide
+-- (R2) without validation: opened, the failed write in the middle of the index
+example : openBlob 3 false (fileAfter 4096 regionSteps) =
+    .ok [writtenHeader wA 20 4096, writtenHeader wB 92 4096, writtenHeader wA 165 4096] := by
+  rw [(startup_scan_regions 3 4096 false regionSteps (goodW _ (by decide)) (by decide) (by decide)).1]
+  decide
+-- (R2) with validation: the zero-filled data of the failed write fails its checksum, quarantine
+example : scanRegions 3 4096 true 20 regionSteps = .error (.load .recordDataChecksum) ∧
+    openBlob 3 true (fileAfter 4096 regionSteps) = .quarantine := by
+  refine ⟨by decide, ?_⟩
+  rw [(startup_scan_regions 3 4096 true regionSteps (goodW _ (by decide)) (by decide) (by decide)).1]
+  decide
+-- (R4) instance: good = the first three steps, silent = the last
+example : openBlob 3 false (fileAfter 4096 regionSteps) =
+    .ok (writtenHeaders serBlobHeader [wA, wB, wA]) :=
+  (restart_opens_with_all_complete_headers 3 4096 [(wA, .ok), (wB, .short 62), (wA, .ok)]
+    [(wZ, .failBefore)] (by decide) (by decide) (goodW _ (by decide)) (by decide)).1
+-- (R4, validating) instance: a failed DELETE-like write without data (`wZ`, 63 of its 68 bytes) between two
+-- successful writes: opened with all three headers even with data validation
+example : ∀ v, openBlob 3 v (fileAfter 4096 ([(wA, .ok), (wZ, .short 63), (wB, .ok)] ++ [(wA, .failBefore)])) =
+    .ok (writtenHeaders serBlobHeader [wA, wZ, wB]) := fun v =>
+  restart_opens_with_all_complete_headers_validating 3 4096 v [(wA, .ok), (wZ, .short 63), (wB, .ok)]
+    [(wA, .failBefore)] (by decide) (by decide) (by decide) (goodW _ (by decide)) (by decide)
+-- (R5) instance: the SECOND failing step left 7 bytes, a later write follows: quarantine
+example : ∀ v, openBlob 3 v (fileAfter 4096 [(wA, .ok), (wB, .short 62), (wZ, .short 7), (wA, .ok)]) =
+    .quarantine := fun v =>
+  restart_quarantines_at_short_region 3 4096 v [(wA, .ok), (wB, .short 62)] [(wA, .ok)] wZ (.short 7)
+    (by decide) (by decide) (by decide) (fun _ _ => by decide) (goodW _ (by decide)) (by decide)
+-- (R6) instance, not vacuous: the failing step is the third one (the second failing one); the blob IS
+-- opened, without the header of that step
+example : (∀ v hs, openBlob 3 v (fileAfter 4096 ([(wA, .ok), (wB, .short 62)] ++ (wZ, .failBefore) :: [])) =
+      .ok hs → writtenHeader wZ (run 4096 fresh [(wA, .ok), (wB, .short 62)]).file.size 4096 ∉ hs) ∧
+    openBlob 3 false (fileAfter 4096 ([(wA, .ok), (wB, .short 62)] ++ (wZ, .failBefore) :: [])) =
+      .ok [writtenHeader wA 20 4096, writtenHeader wB 92 4096] :=
+  ⟨failed_not_served_later_general 3 4096 [(wA, .ok), (wB, .short 62)] [] wZ .failBefore (by decide)
+    (goodW _ (by decide)) (by decide) (by decide), by decide⟩
+-- (R7) instance: acknowledged write, failed write with complete header, then later steps that write
+example : openBlob 3 false (fileAfter 4096 ([(wA, .ok)] ++ (wB, .short 62) :: [(wA, .ok), (wZ, .failBefore)])) =
+    .ok (ackedHeaders 4096 fresh [(wA, .ok)] ++ [writtenHeader wB 92 4096] ++ [writtenHeader wA 165 4096]) := by
+  rw [failed_write_indexed_after_restart_later 3 4096 [(wA, .ok)] [(wA, .ok), (wZ, .failBefore)] wB
+    (.short 62) (by unfold allOk; decide) (by decide) (goodW _ (by decide)) (by decide) (by decide)]
+  decide
+-- the general E8 statement on the same run
+example : ∃ hs, openBlob 3 false (fileAfter 4096 (([(wA, .ok)] ++ (wB, .short 62) :: [(wA, .ok)]) ++
+      [(wZ, .failBefore)])) = .ok hs ∧
+    writtenHeader wB (run 4096 fresh [(wA, .ok)]).file.size 4096 ∈ hs :=
+  (failed_write_indexed_after_restart_general 3 4096 [(wA, .ok)] [(wA, .ok)] [(wZ, .failBefore)] wB
+    (.short 62) (by decide) (by decide) (by decide) (goodW _ (by decide)) (by decide)).2.2
+-- the accident of `torn_header_zero_padded_accepted` is exactly what `NoAccident` excludes
+example : ¬ NoAccident 3 4096 20 paddedSteps := by decide
+
 end Pearl.C11
 
 /-
@@ -748,15 +1093,28 @@ Statements that are FALSE of the model and are kept as refutation + `_partial` v
     `first_fault_hole_quarantine`, `first_fault_torn_header_quarantine`,
     `first_fault_torn_header_padded_partial`.
 
+PROVED SINCE (section "start-up after ANY sequence of steps", lemmas in Pearl/Proofs/ScanRegions.lean)
+  * former item 1, the region-by-region description of the scan of `fileAfter maxSP steps` for ANY sequence of
+    steps: `fileAfter_regions` (the file), `startup_scan_regions` (the scan loop returns exactly `scanRegions`, with
+    and without data validation; start-up opens / quarantines accordingly), `startup_validating_implies_plain`,
+    the two closed forms `restart_opens_with_all_complete_headers` (+ `_validating`) and
+    `restart_quarantines_at_short_region`, which by `restart_cases` cover every sequence of steps; and the exact
+    statement that was asked for, for a failing step that is not the first one:
+    `failed_not_served_later_general` (hypothesis `NoAccident`: only the FIRST step that left less than a header
+    must not be a zero-padding accident) and `failed_not_served_later_general'` (hypothesis in the form "no
+    accident at any failed step of `a ++ [(R, o)]`"). `o ≠ ok` is not needed (it follows from `cut < 57 + klen`).
+  * former item 2, `failed_write_indexed_after_restart` when later steps DO write:
+    `failed_write_indexed_after_restart_later` (after acknowledged writes, any later steps: opened iff the scan
+    of the later regions succeeds, with the failed header between the acknowledged ones and the later ones) and
+    `failed_write_indexed_after_restart_general` (any number of failed steps with complete headers anywhere in
+    the run: every one of them is in the index after a restart without data validation).
+
 NOT YET PROVED
-  1. The characterisation of start-up for a failing step that is NOT the first one, i.e. the general
-     region-by-region description of the scan of `fileAfter maxSP steps` (the scan walks over intact
-     records and E8-accepted torn headers and stops at the first hole / cut header). Exact statement:
-       for `steps = a ++ (R, o) :: b` with `o ≠ ok`, `cut maxSP R o < 57 + klen`, GoodRecs, no
-       zero-padding accident at any failed step of `a ++ [(R, o)]`:
-       `∀ v hs, openBlob klen v (fileAfter maxSP steps) = .ok hs →
-          writtenHeader R (run maxSP fresh a).file.size maxSP ∉ hs`.
-  2. `failed_write_indexed_after_restart` when later steps DO write: by `torn_header_accepted`
-     (FaultLemmas) the scan accepts the torn header and continues at `off + recLen R`, whatever follows;
-     whether the blob is finally opened depends on the later regions (item 1).
+  1. With data validation and a failed step that left a complete header but only part of a record WITH data,
+     followed by a later write: `startup_scan_regions` says exactly what happens (`dataStop`: the zero-filled
+     data must have the CRC of the real data), but there is no closed form — whether a zero-filled remainder
+     passes the CRC is a property of the data (it does when the missing bytes were zeros).
+  2. The first region when it holds less than a header: `RawRecords::start` may fail with a different error
+     (`BlobKeySize`, `RecordMagicByte`) than the loop would (`scanRegions`); both quarantine, and the theorems at
+     `openBlob` level do not distinguish them. The loop-level theorem (`startup_scan_regions`, second clause) is exact.
 -/
